@@ -60,6 +60,7 @@ M0(c) ==
     returned |-> 0,
     cancelled|-> FALSE,         \* the caller cancelled
     mustSignal |-> {},          \* steps with a cancel handler whose plugin was executing when their context ended
+    sigRecv  |-> {},            \* steps whose plugin received the cancel signal
     sigSent  |-> {},            \* steps the cancel signal was enqueued for (or whose plugin had already finished)
     forced   |-> {},            \* steps whose connection was force closed while the plugin executed
     itemsRunning |-> {},        \* <<foreach step, item index>> between acquire and release
@@ -349,6 +350,14 @@ Dispatch(mm, e) ==
     [] e.ev = "XConnClose"-> [mm EXCEPT !.conns = @ \ {e.conn}]
     [] e.ev = "XExecStart"-> OnXExecStart(mm, e)
     [] e.ev = "XExecEnd"  -> [mm EXCEPT !.plugLive = @ \ {e.step}]
+    [] e.ev = "XSigRecv"  -> [mm EXCEPT !.sigRecv = @ \cup {e.step}]
+    \* the plugin was killed (its connection went away while it executed).  A plugin with a cancel handler whose step was
+    \* cancelled is sent the signal and given closure_wait_timeout to react: with a timeout that leaves room for the signal
+    \* to travel even on a loaded machine (>= 1000 ms; the default is 5000) it must have RECEIVED the signal before it is killed - a signal enqueued behind a connection
+    \* that is already closed has not been sent to anybody
+    [] e.ev = "XExecAbort" ->
+         IF e.step \in mm.mustSignal /\ e.step \notin mm.sigRecv /\ e.step \in DOMAIN Case.closure /\ Case.closure[e.step] >= 1000
+           THEN V(mm, "C06", "plugin-killed-before-the-cancel-signal-reached-it", e.step) ELSE mm
     [] e.ev = "XCallerCancel" -> [mm EXCEPT !.cancelled = TRUE]
     [] e.ev = "FItem"     -> OnFItem(mm, e)
     [] e.ev = "SRunCtx"   -> IF e.handler /\ e.step \in mm.plugLive THEN [mm EXCEPT !.mustSignal = @ \cup {e.step}] ELSE mm
